@@ -1,7 +1,7 @@
 #!/bin/bash
 # usage: tools/all_quick.sh [seed...]  -- run the quick tier of every built property for each seed
 cd "$(dirname "$0")/.."
-PROPS=${PROPS:-"C01 C02 C03 C04 C05 C08 C09 C10 C11 C12 C18 C20"}
+PROPS=${PROPS:-"C01 C02 C03 C04 C05 C06 C07 C08 C09 C10 C11 C12 C13 C14 C16 C17 C18 C19 C20"}
 for seed in "${@:-1}"; do
   for p in $PROPS; do
     VERIF_SEED=$seed ./check $p quick 2>&1 | grep "class=\|^property\|TROUBLE\|VIOLATION\|KNOWN" | cut -c1-260 | sed "s/^/[seed $seed] /"
